@@ -3,6 +3,8 @@ package main
 import (
 	"fmt"
 	"go/ast"
+	"go/constant"
+	"go/token"
 	"go/types"
 	"strings"
 
@@ -18,6 +20,7 @@ type modInfo struct {
 	sort  Sort
 	whole bool
 	refs  []ssa.Value // field / cell components: pointer values; element components: slice values (their backing row)
+	accum []*ssa.Phi  // element components: append accumulators (write their entry array or fresh arrays)
 }
 
 type modset map[string]*modInfo
@@ -34,6 +37,11 @@ func (m modset) get(n string, s Sort) *modInfo {
 func (m modset) whole(n string, s Sort) { m.get(n, s).whole = true }
 
 func (m modset) at(n string, s Sort, v ssa.Value) {
+	if isFreshAlloc(v) {
+		// writes to an object allocated by the analysed code itself do not
+		// change any location that existed before
+		return
+	}
 	mi := m.get(n, s)
 	for _, r := range mi.refs {
 		if r == v {
@@ -217,15 +225,79 @@ func (x *Exec) loopMods(lp *loop) modset {
 			x.instrMods(ins, out, map[*ssa.Function]bool{})
 		}
 	}
-	// a reference is usable only if it is the same value in every iteration
+	// a reference is usable only if it is the same value in every iteration;
+	// a slice that is only ever re-assigned by append(self, ...) writes into the
+	// array it had at loop entry or into fresh arrays
 	for _, mi := range out {
+		var keep []ssa.Value
 		for _, r := range mi.refs {
-			if !loopInvariantValue(lp, r) {
-				mi.whole = true
+			if loopInvariantValue(lp, r) {
+				keep = append(keep, r)
+				continue
 			}
+			if phi := appendAccumulator(lp, r); phi != nil {
+				mi.accum = append(mi.accum, phi)
+				continue
+			}
+			mi.whole = true
 		}
+		mi.refs = keep
 	}
 	return out
+}
+
+// appendAccumulator: v is a header phi of lp (or a re-slice / append of it)
+// whose back-edge values are all append(phi, ...) chains.
+func appendAccumulator(lp *loop, v ssa.Value) *ssa.Phi {
+	// hdr(v): the header phi that v derives from through append / re-slice /
+	// merges inside the loop body, or nil
+	var hdr func(v ssa.Value, depth int, seen map[ssa.Value]bool) *ssa.Phi
+	hdr = func(v ssa.Value, depth int, seen map[ssa.Value]bool) *ssa.Phi {
+		if depth > 16 || seen[v] {
+			return nil
+		}
+		seen[v] = true
+		switch t := v.(type) {
+		case *ssa.Call:
+			if b, ok := t.Call.Value.(*ssa.Builtin); ok && b.Name() == "append" {
+				return hdr(t.Call.Args[0], depth+1, seen)
+			}
+		case *ssa.Slice:
+			if _, ok := t.X.Type().Underlying().(*types.Slice); ok {
+				return hdr(t.X, depth+1, seen)
+			}
+		case *ssa.Phi:
+			if t.Block() == lp.header {
+				return t
+			}
+			if !lp.blocks[t.Block()] {
+				return nil
+			}
+			var res *ssa.Phi
+			for _, e := range t.Edges {
+				h := hdr(e, depth+1, seen)
+				if h == nil || (res != nil && h != res) {
+					return nil
+				}
+				res = h
+			}
+			return res
+		}
+		return nil
+	}
+	phi := hdr(v, 0, map[ssa.Value]bool{})
+	if phi == nil {
+		return nil
+	}
+	for j, p := range lp.header.Preds {
+		if !lp.blocks[p] {
+			continue
+		}
+		if phi.Edges[j] != phi && hdr(phi.Edges[j], 0, map[ssa.Value]bool{}) != phi {
+			return nil
+		}
+	}
+	return phi
 }
 
 func loopInvariantValue(lp *loop, v ssa.Value) bool {
@@ -436,18 +508,62 @@ func (x *Exec) enterLoop(fr *Frame, lp *loop, st *State) {
 	} else if x.specDepth == 0 {
 		x.note("loop %d of %s has no invariant: loop-modified state is arbitrary after the cut", lp.ordinal, shortFn(fr.fn.String()))
 	}
+	mods := x.loopMods(lp)
+	entryVals := map[*ssa.Phi]Value{}
+	for _, ins := range hdr.Instrs {
+		if phi, ok := ins.(*ssa.Phi); ok {
+			entryVals[phi] = fr.vals[phi]
+		}
+	}
+	allocAtEntry := st.alloc
 	// havoc phis
 	for _, ins := range hdr.Instrs {
 		phi, ok := ins.(*ssa.Phi)
 		if !ok {
 			break
 		}
+		changed := false
+		for j, p := range hdr.Preds {
+			if lp.blocks[p] && phi.Edges[j] != phi {
+				changed = true
+			}
+		}
+		if !changed {
+			continue // the loop never assigns this variable: it keeps its entry value
+		}
 		fr.vals[phi] = x.havocLike(st, phi)
 	}
-	for n, mi := range x.loopMods(lp) {
+	for n, mi := range mods {
 		x.compSort[n] = mi.sort
 		if mi.whole {
 			st.heap[n] = x.w.Fresh(n, mi.sort)
+			continue
+		}
+		if len(mi.accum) > 0 {
+			// rows of the accumulators' entry arrays and of arrays allocated in the
+			// loop change; every other pre-existing row is unchanged
+			old := x.comp(st, n, mi.sort)
+			nh := x.w.Fresh(n, mi.sort)
+			ts := x.w.ts
+			r := ts.Bound("r", SInt)
+			cond := []*Term{x.w.intLe(ts.IntLit(0), r), x.w.intLe(r, allocAtEntry)}
+			for _, phi := range mi.accum {
+				if ev, ok := entryVals[phi].(*Term); ok && ev.sort == SSlice {
+					cond = append(cond, ts.Not(ts.Eq(r, x.w.sArr(ev))))
+					// the accumulator itself: same array as at entry, or a fresh one
+					if cur, ok := fr.vals[phi].(*Term); ok {
+						x.assume(ts.Or(ts.Eq(x.w.sArr(cur), x.w.sArr(ev)), x.w.intLt(allocAtEntry, x.w.sArr(cur))))
+						x.assume(ts.Implies(ts.Eq(x.w.sArr(cur), x.w.sArr(ev)), ts.Eq(x.w.sOff(cur), x.w.sOff(ev))))
+					}
+				}
+			}
+			for _, rv := range mi.refs {
+				if v, ok := x.addrOf(fr, rv).(*Term); ok && v.sort == SSlice {
+					cond = append(cond, ts.Not(ts.Eq(r, x.w.sArr(v))))
+				}
+			}
+			x.assume(ts.Quant("forall", []*Term{r}, ts.Implies(ts.And(cond...), ts.Eq(ts.Select(nh, r), ts.Select(old, r)))))
+			st.heap[n] = nh
 			continue
 		}
 		// only the named references / rows change
@@ -478,6 +594,7 @@ func (x *Exec) enterLoop(fr *Frame, lp *loop, st *State) {
 		st.heap[n] = h
 	}
 	x.bumpAlloc(st)
+	x.autoInvariants(fr, lp, st)
 	if ls != nil {
 		for k, f := range ls.invSSA {
 			x.assumeIn(st, x.evalLoopFn(fr, hdr, ls, ls.invFns[k], f, st))
@@ -503,11 +620,37 @@ func (x *Exec) havocLike(st *State, phi *ssa.Phi) Value {
 }
 
 func (x *Exec) backEdge(fr *Frame, lp *loop, from *ssa.BasicBlock, cond *Term, st *State) {
+	hdr := lp.header
+	if x.specDepth == 0 {
+		for _, ai := range lp.autoInv {
+			for j, p := range hdr.Preds {
+				if p != from {
+					continue
+				}
+				nv, ok := x.get(fr, ai.phi.Edges[j]).(*Term)
+				if !ok {
+					continue
+				}
+				sub := st.clone()
+				sub.guard = cond
+				var fact *Term
+				if ai.up {
+					fact = x.w.bvsle(ai.entry, nv)
+				} else {
+					fact = x.w.bvsle(nv, ai.entry)
+				}
+				name := ai.phi.Comment
+				if name == "" {
+					name = ai.phi.Name()
+				}
+				x.oblige(sub, "auto-inv", fmt.Sprintf("loop%d.%s", lp.ordinal, name), fact, from.Instrs[len(from.Instrs)-1].Pos())
+			}
+		}
+	}
 	ls := x.loopSpecFor(fr, lp)
 	if ls == nil {
 		return
 	}
-	hdr := lp.header
 	// bind header phis to the edge values
 	saved := map[*ssa.Phi]Value{}
 	for _, ins := range hdr.Instrs {
@@ -555,4 +698,90 @@ func (x *Exec) loopSpecHolding(helper string) *loopSpec {
 		}
 	}
 	return nil
+}
+
+// autoInvariants: counters. A header phi whose entry value is e and whose
+// back-edge value is phi+k (k > 0 constant) satisfies e <= phi; with k < 0,
+// phi <= e. The fact is assumed after the havoc and its preservation is an
+// obligation of its own at every back edge (so it is proved, not trusted).
+func (x *Exec) autoInvariants(fr *Frame, lp *loop, st *State) {
+	hdr := lp.header
+	for _, ins := range hdr.Instrs {
+		phi, ok := ins.(*ssa.Phi)
+		if !ok {
+			break
+		}
+		if !isInteger(phi.Type()) || !isSigned(phi.Type()) {
+			continue
+		}
+		var entry ssa.Value
+		step := int64(0)
+		okShape := true
+		for j, p := range hdr.Preds {
+			e := phi.Edges[j]
+			if lp.blocks[p] {
+				bo, ok := e.(*ssa.BinOp)
+				if !ok || (bo.Op != token.ADD && bo.Op != token.SUB) || bo.X != phi {
+					okShape = false
+					break
+				}
+				c, ok := bo.Y.(*ssa.Const)
+				if !ok || c.Value == nil {
+					okShape = false
+					break
+				}
+				k, exact := constant.Int64Val(constant.ToInt(c.Value))
+				if !exact || k == 0 {
+					okShape = false
+					break
+				}
+				if bo.Op == token.SUB {
+					k = -k
+				}
+				if step != 0 && (step > 0) != (k > 0) {
+					okShape = false
+					break
+				}
+				step = k
+			} else {
+				if entry != nil && entry != e {
+					okShape = false
+					break
+				}
+				entry = e
+			}
+		}
+		if !okShape || entry == nil || step == 0 {
+			continue
+		}
+		ev, ok := x.get(fr, entry).(*Term)
+		if !ok {
+			continue
+		}
+		pv, ok := fr.vals[phi].(*Term)
+		if !ok {
+			continue
+		}
+		var fact *Term
+		if step > 0 {
+			fact = x.w.bvsle(ev, pv)
+		} else {
+			fact = x.w.bvsle(pv, ev)
+		}
+		x.assumeIn(st, fact)
+		lp.autoInv = append(lp.autoInv, autoInv{phi: phi, entry: ev, up: step > 0})
+	}
+}
+
+// isFreshAlloc: v is (an address inside) a local allocation.
+func isFreshAlloc(v ssa.Value) bool {
+	switch t := v.(type) {
+	case *ssa.Alloc:
+		return true
+	case *ssa.FieldAddr:
+		return isFreshAlloc(t.X)
+	case *ssa.MakeSlice, *ssa.MakeMap:
+		return true
+	}
+	return false
 }
